@@ -30,6 +30,7 @@ class XSchema(tg.Schema):
     text.  Expressions use unprefixed names and no double quote / backslash.  `when` lines go into the extension DSL only for schemas
     marked `self.xp = True` (the law-only `when` schemas of C07 keep their extension DSL)."""
     xp = False
+    xpmask = None
 
     def xdsl(self):
         L = []
@@ -46,6 +47,9 @@ class XSchema(tg.Schema):
             for n in self.nodes:
                 if getattr(n, "when", None):
                     L.append("when %d %s" % (n.sid, tg.hx(n.when.encode("utf-8"))))
+            if self.xpmask is not None:
+                # the deviations of libyang's XPath engine the model has to mirror (XPath.Quirks mask, c08.live_mask); absent = all on
+                L.append("xpmask %d" % self.xpmask)
         return "\n".join(L).encode()
 
     def has_xpath(self):
@@ -888,6 +892,12 @@ def safe_literals(sn, key=False):
     return out
 
 
+# string-length() counts UTF-8 characters in libyang since F41 was repaired; the Lean engine counts bytes while bit 3 of its quirk
+# mask is on (must "string-length(../a) = 1", a = 'é').  The check sends the live mask of C08 with the schema (`xpmask` line of the
+# extension DSL), so the function is generated.
+XP_STRING_LENGTH = True
+
+
 class XpGen:
     """boolean expressions for `must` / `when` on a context schema node.  gen(ctx) -> (text, deps); deps = [(target schema node,
     literal | None)]: what the expression looks at (used by the mutation break-must)."""
@@ -976,7 +986,7 @@ class XpGen:
             if x < 0.67 and tgt.ty.name == "string":
                 deps.append((tgt, None))
                 y = r.random()
-                if y < 0.4:
+                if y < 0.4 and XP_STRING_LENGTH:
                     return X.bop(r.choice(["lt", "le", "gt", "ge", "eq"]), X.fn("string-length", P), X.num(r.choice([0, 1, 2, 3])))
                 return X.fn(r.choice(["starts-with", "contains"]), P, X.lit(r.choice(["a", "b", "1", "x", "0"])))
             if x < 0.77:
@@ -1064,8 +1074,9 @@ def decorate_xpath(rng, s, nmust=2, nlref=1, nwhen=0):
     s.xp = True
     uniq = {id(l) for n in s.nodes for u in getattr(n, "uniques", []) for l in u}
     used = set()          # targets and key references: they stay what they are
-    plain = lambda n: (n.kind == "leaf" and not n.iskey and id(n) not in uniq and id(n) not in used and not getattr(n, "lref", None)
-                       and not getattr(n, "when", None))
+    # (not a mandatory leaf: without any target instance the repair step of the instance generator could only leave it dangling)
+    plain = lambda n: (n.kind == "leaf" and not n.iskey and not n.mandatory and id(n) not in uniq and id(n) not in used
+                       and not getattr(n, "lref", None) and not getattr(n, "when", None))
     for _ in range(nlref):
         srcs = [n for n in s.nodes if plain(n)]
         rng.shuffle(srcs)
@@ -1131,7 +1142,7 @@ def fam_xpath(rng, idx, nwhen=0):
 
 
 FAMILY_PREFIX["xpath"] = "xq"
-XP_MUTATIONS = ["break-must", "break-leafref"]
+XP_MUTATIONS = ["break-must", "break-leafref", "flip-when"]
 
 
 def xp_counts(s):
@@ -1209,6 +1220,7 @@ class XTreeGen(tg.TreeGen):
         self.fix_uniques(None, f)
         if getattr(self.s, "xp", False):
             self.fix_leafrefs(f)
+            f = prune_np(f) or f        # a dropped leafref may have been the only child of a non-presence container
         return f
 
     def edit(self, forest, rate=0.35):
@@ -1678,6 +1690,31 @@ class Mutator:
                 p, sibs, x = self.rng.choice(inst)
                 sibs.remove(x)
                 return {"sid": tgt.sid, "how": "delete", "must_on": ctx.sid}
+        return None
+
+    def m_flip_when(self, f):
+        """the leaf a when condition compares: set to the literal of the comparison, to another value, or removed"""
+        deps = [(n, d) for n in self.s.nodes for d in getattr(n, "when_deps", [])]
+        self.rng.shuffle(deps)
+        for ctx, (tgt, lit) in deps:
+            inst = self._instances(f, tgt)
+            if not inst:
+                continue
+            p, sibs, x = self.rng.choice(inst)
+            r = self.rng.random()
+            if r < 0.2 and not tgt.mandatory and not tgt.iskey:
+                sibs.remove(x)
+                return {"sid": tgt.sid, "how": "delete", "when_on": ctx.sid}
+            if tgt.iskey or getattr(tgt, "lref", None):
+                continue
+            if x.val != lit.encode() and r < 0.7:
+                x.val = lit.encode()
+            else:
+                other = [v for v in tgt.ty.pool() if v != x.val]
+                if not other:
+                    continue
+                x.val = self.rng.choice(other)
+            return {"sid": tgt.sid, "how": "value", "when_on": ctx.sid}
         return None
 
     def m_break_leafref(self, f):
